@@ -17,6 +17,9 @@ MAP_SETS_THOROUGH = MAP_SETS_QUICK + ",maptree:9:9,maptree:10:8,maptree:11:1,map
 SET_SETS_QUICK = "settree:7:8,settree:6:1,settree-int:6:300,settree:8:0,settree:5:9,settree-int:7:8,settree:7:0,settree:8:9"
 SET_SETS_THOROUGH = SET_SETS_QUICK + ",settree:9:9,settree:10:8,settree:11:1,settree-int:9:0,settree:10:300,settree-int:10:1,settree:9:0,settree:11:8"
 
+LIST_SETS_QUICK = "maplist:8:8,setlist:8:0,maplist:7:1,setlist:7:9,maplist:9:300,setlist:9:8,maplist:6:0,setlist:6:1"
+LIST_SETS_THOROUGH = LIST_SETS_QUICK + ",maplist:11:8,setlist:11:0,maplist:12:1,setlist:12:9,maplist:10:0,setlist:10:8,maplist:13:9,setlist:13:1"
+
 MIRI_KEY = dict(profile="tiny-dense,small-coincidence,clear-heavy", maxlen=36)
 MIRI_ORD = dict(profile="tiny-churn,small-mixed,clear-and-reuse", maxlen=40)
 
@@ -286,6 +289,7 @@ def _plan(prop, T):
                 key_random("dbg", "pred,get,export,empty", "list", 6400, T),
                 key_random("rel", "pred,get,export,empty", "list", 9600, T),
                 key_random("dbg", "pred,get,export,empty", "list", 3200, T, profile="stall-clock,clear-heavy,tiny-dense", seed_offset=11),
+                ord_closure("dbg", "lookup,handle,steps", T, LIST_SETS_QUICK, LIST_SETS_THOROUGH),
                 ord_random("dbg", "lookup,handle,steps", "maplist+setlist", 6400, T),
                 ord_random("rel", "lookup,handle,steps", "maplist+setlist", 6400, T),
                 dict(flavour="dbg", suite="sweep-line", args=dict(mon="pred,get,empty", coll="list"), shards=4, budget=80),
@@ -294,7 +298,7 @@ def _plan(prop, T):
             ],
             rule="evaluation = one result of KeyExpList / MapList / SetList compared with the same reference models as the trees (handles are positions; steps past either end must give the empty sentinel); distinct non-trivial = distinct (reference contents, operation, probe)",
             require={"pred_compared_entry": 20000, "get_compared_hit": 2000, "op_export": 2000, "lookup_compared_present": 100000, "handle_compared_entry": 20000, "step_compared_at_end": 2000, "step_compared_inner": 5000, "states": 5000},
-            exhaustive_scope="KeyExpList: closure to a fixpoint over the listed key universes (state = buffer content + cached earliest expiration, through the verif_state hook); MapList / SetList and larger universes: sampled histories",
+            exhaustive_scope="KeyExpList: closure to a fixpoint over the listed key universes (state = buffer content + cached earliest expiration, through the verif_state hook); MapList / SetList: every subset of the listed key universes x every probe / handle operation / neighbour step; larger universes: sampled histories",
             assumptions=["reference models as for C01/C04-C09"],
         )
     if prop == "C14":
